@@ -11,6 +11,7 @@ from __future__ import annotations
 import json
 import math
 import os
+import sys
 import tempfile
 import warnings
 from datetime import datetime, timedelta
@@ -18,7 +19,7 @@ from fractions import Fraction
 
 import numpy as np
 
-from . import common
+from . import c13_adv, common
 from .common import Ctx, hexs
 
 C = 299792458
@@ -49,21 +50,28 @@ def micro(rng, kind):
     return rng.randint(-999_999_000_000, 999_999_000_000)
 
 
-def gen_model(rng, quick):
-    """an abstract SP3 file (the `File` of lean/Midgard/Spec/Sp3File.lean) as plain Python data"""
-    version = rng.choice("cd")
-    pv = rng.choice("PPV")
+def gen_model(rng, quick, version=None, pv=None, nsat=None, nep=None, sats=None, ncomments=None):
+    """an abstract SP3 file (the `File` of lean/Midgard/Spec/Sp3File.lean) as plain Python data.
+    The keyword arguments override the drawn values (without them the random stream is what it always was)."""
+    v0 = rng.choice("cd")
+    version = v0 if version is None else version
+    p0 = rng.choice("PPV")
+    pv = p0 if pv is None else pv
     k = rng.random()
     if k < 0.08:
-        nsat = 1
+        n0 = 1
     elif k < 0.16:
-        nsat = rng.randint(86, 99)                              # more than 85: extra + / ++ continuation lines
+        n0 = rng.randint(86, 99)                                # more than 85: extra + / ++ continuation lines
     else:
-        nsat = rng.randint(1, 12 if quick else 90)
-    nep = rng.randint(1, 6 if quick else 50)
-    if quick and nsat > 85:
-        nep = rng.randint(1, 2)
-    sats = []
+        n0 = rng.randint(1, 12 if quick else 90)
+    nsat = n0 if nsat is None else nsat
+    if sats is not None:
+        nsat = len(sats)
+    e0 = rng.randint(1, 6 if quick else 50)
+    if quick and n0 > 85:
+        e0 = rng.randint(1, 2)
+    nep = e0 if nep is None else nep
+    sats = [] if sats is None else list(sats)
     while len(sats) < nsat:
         s = f"{rng.choice(SYS)}{rng.randint(1, 99):02d}"
         if s not in sats:
@@ -98,7 +106,7 @@ def gen_model(rng, quick):
         satlines.append(("pp", "       " + "".join(f"{rng.randint(0, 12):3d}" for _ in range(17))))
     ft = rng.choice(["G", "M", "R", "E"])
     tail = [("i", "    0    0    0    0      0      0      0      0         0")] * 2
-    for _ in range(rng.randint(4, 6) if version == "c" else rng.randint(0, 8)):
+    for _ in range((rng.randint(4, 6) if version == "c" else rng.randint(0, 8)) if ncomments is None else ncomments):
         tail.append(("c", " " + common.digest(rng.random())[:rng.randint(0, 12)] + " comment"))
     epochs = []
     for k in range(nep):
@@ -190,9 +198,12 @@ def wire(F):
     return " ".join(o)
 
 
-def gen_file(rng, quick):
+def gen_file(rng, quick, **kw):
     """abstract file -> what the oracle needs (the generating orbit model) + the independent writer's text"""
-    F = gen_model(rng, quick)
+    return file_of_model(gen_model(rng, quick, **kw))
+
+
+def file_of_model(F):
     recs = []
     for e in F["epochs"]:
         t, f7 = e["t"], e["s7"] % 10**7
@@ -220,7 +231,8 @@ class Impl:
 
         self.cls = Sp3dParser
 
-    def parse(self, text):
+    def parse(self, text, via_plugin=False):
+        """via_plugin: through the public entry `parsers.parse_file("sp3", path)` instead of the class"""
         self.n += 1
         fn = os.path.join(self.dir, f"o{self.n % 8}.sp3")
         with open(fn, "w", newline="") as f:
@@ -228,8 +240,13 @@ class Impl:
         try:
             with warnings.catch_warnings():
                 warnings.simplefilter("ignore")
-                p = self.cls(fn)
-                p.parse()
+                if via_plugin:
+                    from midgard import parsers
+
+                    p = parsers.parse_file("sp3", fn)
+                else:
+                    p = self.cls(fn)
+                    p.parse()
             return "ok", p
         except BaseException as e:  # noqa: BLE001
             if isinstance(e, KeyboardInterrupt):
@@ -418,7 +435,7 @@ def one_file(ctx, impl, drv, f, corpus=False):
     model_json = None
     if not corpus:
         F = f["model"]
-        nsat = len(F["epochs"][0]["recs"])
+        nsat = max(len(e["recs"]) for e in F["epochs"])
         ctx.count(f"version:{f['meta']['version']}{f['meta']['pv_flag']}")
         ctx.count(f"time_sys:{f['meta']['time_sys']}")
         ctx.count("fractional-epochs" if any(r["f7"] for r in f["recs"]) else "whole-second-epochs")
@@ -485,17 +502,23 @@ def run(ctx: Ctx):
                 "each checked against File.wf and the compiled instance of file_roundtrip, then parsed by the real parser: 1, 2..90 and 86..99 satellites of any constellation letter (extra +/++ header lines), "
                 "1..50 epochs with whole and fractional (1e-7 s) seconds and steps incl. sub-second steps (0.1/0.25/0.5 s, several epochs per integral second), P and P+V files with EP/EV lines, "
                 "0.000000 / 999999.999999 sentinels and the values next to them (+-0.000001, +-0.000002, 999999.999998, -999999.999999), blank accuracy codes, records cut after the clock or after the codes, "
-                "GPS and UTC time systems, comment/%i/+/++ header lines; every case non-trivial; distinct by file text")
+                "GPS and UTC time systems, comment/%i/+/++ header lines; every case non-trivial; distinct by file text.  "
+                + c13_adv.RULE)
     ctx.trusted += ["float(text) vs correctly rounded double of the exact rational; products with unit factors compared to 4e-16 relative, "
                     "base**code to 1e-13 relative (floating-point error measured, not proved)",
                     "Time(datetime)+TimeDelta(seconds) of midgard.data.time taken as given (C02/C03); dataset epoch compared to 1e-8 s",
                     "the driver's wire parser for abstract files (lean/Driver/C13.lean, namespace Wire); the Lean spec writer is compared byte for byte with the independent Python writer on every generated file"]
     ctx.assumptions += ["seconds fields carry at most 7 decimals (the 8th printed digit is 0), so '{:010.7f}' is exact",
-                        "no duplicate epochs, no empty lines (outside 'well-formed')"]
+                        "no duplicate epochs, no empty lines (outside 'well-formed')"] + c13_adv.ASSUMPTIONS
+    ctx.extra["adversarial_kinds"] = {**{k: {"real_parser": e, "property_defines_result": p} for k, (e, p) in c13_adv.EXPECT.items()},
+                                      **{k: {"real_parser": v, "property_defines_result": True} for k, v in c13_adv.MODEL_KINDS.items()}}
     try:
         for fcase in sorted((common.VERIF / "corpus" / "C13").glob("*.json")):
             c = json.loads(fcase.read_text())
             c = c.get("replay", c)
+            if "adv" in c:      # a text-level adversarial file: model vs code + the stated behaviour of the real parser
+                c13_adv.text_case(ctx, sys.modules[__name__], impl, drv, c["adv"], c["file"], c["ref"], corpus=True, via_plugin=bool(c.get("via_plugin")))
+                continue
             ctx.count("corpus")
             one_file(ctx, impl, drv, {"text": c["file"], "recs": [], "meta": {}}, corpus=True)
         for f in sorted((common.REPO / "tests" / "parsers" / "example_files").glob("sp3*")):
@@ -506,6 +529,8 @@ def run(ctx: Ctx):
         if ctx.thorough:                          # plus many small ones
             for _ in range(1200):
                 one_file(ctx, impl, drv, gen_file(rng, True))
+        # adversarial files for the line grouping (after the generated ones: their random stream stays what it was)
+        c13_adv.run_adv(ctx, sys.modules[__name__], impl, drv, ctx.budget(8, 250))
     finally:
         impl.cleanup()
     ctx.traces = ctx.evaluations
@@ -513,6 +538,11 @@ def run(ctx: Ctx):
 
 def replay(payload):
     c = payload.get("replay", payload)
+    if "file" not in c and payload.get("disagreements"):      # a "broken correspondence" replay file: its first case
+        c = payload["disagreements"][0]["case"]
+        payload = {**payload, "replay": c, "key": payload["disagreements"][0]["correspondence"]}
+    if "adv" in c:
+        return c13_adv.replay_adv(sys.modules[__name__], payload)
     ctx = Ctx("C13", "quick", 0)
     impl = Impl()
     try:
